@@ -97,8 +97,10 @@ ListsOver(S) == UNION {{[k \in 1..n |-> E(q[k], l[k])] : q \in DistinctSeqs(S, n
 \* labels containing blanks, two of them sharing their first word (the two list syntaxes must agree on them)
 SpacedLists == {<<E("s1", "East Africa"), E("s10", "East Asia"), E("s2", "East Africa")>>,
                 <<E("s10", "East Asia"), E("s1", "East Africa")>>, <<E("s1", "x y"), E("s2", U), E("s10", "x  y")>>}
-MCLists_perm == ListsOver(S3) \cup SpacedLists \cup {AllMarker, <<>>, <<E("s1", "A"), E("z", "A")>>, <<E("z", U)>>}
-MCLists_perm_quick == {l \in ListsOver(S3) : Len(l) >= 2 /\ l[1].s # "s2"} \cup SpacedLists \cup {AllMarker, <<>>, <<E("s1", "A"), E("z", "A")>>}
+\* names that equal an input sample only after trimming blanks are ABSENT samples
+PaddedLists == {<<E("s1", "A"), E(" s2", "A")>>, <<E("s2 ", U)>>, <<E("s1", "A"), E("s10 ", "B")>>}
+MCLists_perm == ListsOver(S3) \cup SpacedLists \cup PaddedLists \cup {AllMarker, <<>>, <<E("s1", "A"), E("z", "A")>>, <<E("z", U)>>}
+MCLists_perm_quick == {l \in ListsOver(S3) : Len(l) >= 2 /\ l[1].s # "s2"} \cup SpacedLists \cup PaddedLists \cup {AllMarker, <<>>, <<E("s1", "A"), E("z", "A")>>}
 \* three asymmetric records so that every permutation is visible in the result
 MCSeq_perm == {<<Row3(HET, HOM0, HOM0), Row3(HOM1, HET, HOM0), Row3(HOM1, HOM1, HET)>>,
                \* ... and a record at which sample c is haploid and b missing: matters exactly when they are listed
